@@ -157,6 +157,13 @@ def run_inproc(tool, argv, cwd=None):
         sys.argv = old_argv
         os.chdir(old_cwd)
         C.MibCompiler.compile, C.MibCompiler.buildIndex = orig_compile, orig_index
+        # --debug leaves a module-level logger behind: later runs in this process must start without it
+        from pysmi import debug
+        import logging
+        debug.setLogger(0)
+        lg = logging.getLogger('pysmi')
+        for h in list(lg.handlers):
+            lg.removeHandler(h)
     rec['exit'] = code
     rec['stderr'] = err.getvalue()
     rec['stdout'] = out.getvalue()
